@@ -184,7 +184,11 @@ def handle(cmd, args):
             return 'none'
         ok1 = full(pt.instantiate(r)) == full(ins)
         ok2 = all(k in r and full(r[k]) == full(v) for k, v in seed.items())
-        return 'true' if ok1 and ok2 else '(false reinst=%s seed=%s)' % (ok1, ok2)
+        if ok1 and ok2:
+            return 'true'
+        # for the classification of the failure: the bindings and the pattern, fully expanded
+        binds = ' '.join('(%d %s)' % (k, sx.pat_to_s(full(v))) for k, v in r.items())
+        return '(false reinst=%s seed=%s (binds %s) (pattern %s))' % (ok1, ok2, binds, sx.pat_to_s(full(pt)))
     if cmd == 'law-match-complete':
         # completeness: the instance is pt[theta]; matching must succeed and agree with theta on metavars(pt)
         pt, theta = npat(args[0]), nmap(args[1])
